@@ -15,8 +15,11 @@ MANIFEST = dict(
     design="6/C20")
 
 FAMILIES = ["long_line", "many_lines", "line_comments", "block_comments", "plus_chain", "and_chain", "concat_chain", "in_list", "values_rows",
-            "many_statements", "long_string", "long_identifier", "qualified_names", "join_chain", "case_whens", "func_args", "whitespace"]
-ENTRIES = ["tokenize", "parse", "sql", "format", "formatter", "scan", "scansql", "extract"]
+            "many_statements", "long_string", "long_identifier", "qualified_names", "join_chain", "case_whens", "func_args", "whitespace",
+            "string_literals", "quoted_idents", "backtick_idents", "numbers", "placeholders", "dollar_quoted", "dollar_tags_unclosed", "casts",
+            "json_ops", "subscripts", "semicolons", "dots", "or_like", "order_by_list", "crlf_lines", "unicode_idents"]
+ENTRIES = ["tokenize", "tokenize_ctx", "parse", "parse_ctx", "validate", "recovery", "sql", "format", "formatter", "scan", "scansql", "extract", "lint"]
+CPU_RATIO_LIMIT = 9.0     # CPU time for a 4x larger input (min of repeats), judged only when the smallest run takes >= 20 ms
 EXP_LIMIT = 1.5
 ALLOC_RATIO_LIMIT = 7.0
 
@@ -89,12 +92,19 @@ def run(tier):
     known = {k["signature"].get("function"): k for k in common.known_findings("C20") if k["status"] == "known"}
     ladders = [(1000, 2000, 4000)] if tier == "quick" else [(500, 1000, 2000), (8000, 16000, 32000)]
     jobs = [(e, f, k) for lad in ladders for e in ENTRIES for f in FAMILIES for k in lad]
-    res = cm.measure_many(jobs, timeout=240 if tier == "quick" else 900)
+    if tier != "quick":
+        # text-level scanning and tokenizing of very many lexemes: a larger ladder (library-call work shows late)
+        big = (16000, 32000, 64000)
+        ladders = ladders + [big]
+        jobs += [(e, f, k) for e in ("scansql", "tokenize", "tokenize_ctx", "lint") for f in FAMILIES for k in big]
+    res = cm.measure_many(jobs, workers=16, timeout=240 if tier == "quick" else 900)
     by = {(r["entry"], r["family"], r["k"]): r for r in res}
     rows, flagged, maxbytes, nontrivial = [], {}, 0, set()
     for lad in ladders:
         for e in ENTRIES:
             for f in FAMILIES:
+                if (e, f, lad[0]) not in by:
+                    continue
                 rs = [by[(e, f, k)] for k in lad]
                 bad = [r for r in rs if "total" not in r]
                 if bad:
@@ -114,6 +124,16 @@ def run(tier):
                     fl = flagged.setdefault(("alloc", e, f), {"entry": e, "family": f, "ks": lad, "alloc_bytes": al, "ratio": round(al[2] / al[0], 2),
                                                              "what": "allocated bytes grow super-linearly (copying work)", "measure": "alloc"})
                 rows[-1]["alloc_bytes"] = al
+                cpu = [r["info"].get("cpu_us", 0) for r in rs]
+                rows[-1]["cpu_us"] = cpu
+                if cpu[0] >= 20000 and cpu[2] / cpu[0] > CPU_RATIO_LIMIT:
+                    # timing is noisy: confirm with two more measurements, keep the minimum per size
+                    again = cm.measure_many([(e, f, k) for k in lad for _ in range(2)], timeout=900)
+                    for j, k in enumerate(lad):
+                        cpu[j] = min([cpu[j]] + [r["info"]["cpu_us"] for r in again if r.get("k") == k and "info" in r])
+                    if cpu[0] >= 20000 and cpu[2] / cpu[0] > CPU_RATIO_LIMIT:
+                        flagged.setdefault(("cpu", e, f), {"entry": e, "family": f, "ks": lad, "cpu_us": cpu, "ratio": round(cpu[2] / cpu[0], 2),
+                                                           "what": "CPU time grows super-linearly (work inside library calls such as string search, copying or regular-expression matching is not visible to the statement counters)", "measure": "cpu"})
                 if ex > EXP_LIMIT:
                     top = hot(rs)
                     fl = flagged.setdefault((top[0][0],), {"entry": e, "family": f, "ks": lad, "work": w, "exponent": round(ex, 3), "hot_functions": top,
@@ -146,7 +166,7 @@ def run(tier):
         if short and short in known:
             rp.known("Cost:" + short, known[short].get("what", ""))
             continue
-        if key[0] == "alloc":
+        if key[0] in ("alloc", "cpu"):
             ka = [k for k in known_alloc if key[1] in k["signature"]["entries"] and key[2] in k["signature"]["families"]]
             if ka:
                 if ka[0]["key"] not in seen_known:
@@ -254,5 +274,9 @@ def replay(path):
         print("work", w, "exponent", round(ex, 3), "alloc", al)
         if d.get("measure") == "alloc":
             return 1 if al[0] > 0 and al[2] / al[0] > ALLOC_RATIO_LIMIT else 0
+        if d.get("measure") == "cpu":
+            cpu = [r["info"].get("cpu_us", 0) for r in res]
+            print("cpu_us", cpu)
+            return 1 if cpu[0] > 0 and cpu[2] / cpu[0] > CPU_RATIO_LIMIT else 0
         return 1 if ex > EXP_LIMIT else 0
     return 2
